@@ -22,6 +22,8 @@ logging.getLogger("dissect.cobaltstrike.beacon").setLevel(logging.CRITICAL)
 ID = "C03"
 DRIVER = "drv_c03"
 GEN = ["beacon"]
+GEN += ["py_beacon"]
+EXTRA_PROP_FILES = ["Props/C03Gen.lean"]
 STREAMS = {
     "tr": {"relevant": True, "desc": "parse_transform_binary(program, build)"},
     "rc": {"relevant": True, "desc": "parse_recover_binary(program)"},
@@ -38,13 +40,24 @@ STREAMS = {
     "proto": {"relevant": False, "desc": "BeaconProtocol(x).name for arbitrary x (cstruct/enum.Flag naming; property only speaks about defined values)"},
     "cfg": {"relevant": True, "desc": "BeaconConfig(tlv(index,type,value)).settings: SETTING_TO_PRETTYFUNC dispatch end to end"},
     "der": {"relevant": True, "desc": "derived properties of BeaconConfig(block): domain_uri_pairs/uris/domains/killdate/protocol/port/watermark/is_trial/public_key"},
+    "g-tr": {"relevant": False, "desc": "parse_transform_binary TRANSLATED from its source (Gen/PyBeacon.lean) vs the function"},
+    "g-rc": {"relevant": False, "desc": "translated parse_recover_binary vs the function"},
+    "g-ex": {"relevant": False, "desc": "translated parse_execute_list vs the function"},
+    "g-it": {"relevant": False, "desc": "translated parse_process_injection_transform_steps vs the function"},
+    "g-gg": {"relevant": False, "desc": "translated parse_gargle vs the function"},
+    "g-pv": {"relevant": False, "desc": "translated parse_pivot_frame vs the function"},
+    "g-nts": {"relevant": False, "desc": "translated null_terminated_str vs the function"},
+    "g-ntb": {"relevant": False, "desc": "translated null_terminated_bytes vs the function"},
 }
+G_STREAMS = {"tr", "rc", "ex", "it", "gg", "pv", "nts", "ntb"}
 TRUSTED = [
     "tools/harness/c03.py generators, reference encoders and renderers; line protocol parsing in lean/CsVerif/Driver/C03.lean",
     "tools/gen/beacon.py (opcode tables by introspection of the imported package)",
     "modelled, not verified: io.BytesIO.read, int.from_bytes, bytes.rstrip/partition/decode (UTF-8 strict, latin-1), str.split/rstrip/format, "
     "dict.fromkeys, itertools.zip_longest, ipaddress.IPv4Address, dissect.cstruct 4.7 enum/flag/struct construction and `.name`",
     "SHA-256 is a parameter of the model (the harness observes the pre-image with a stub hash and supplies hashlib's digest as a one-point table)",
+    "tools/py2leanu.py + lean/CsVerif/Model/PyU.lean (untyped source-to-Lean translation of the eight decoders; Props/C03Gen.lean proves the "
+    "translated definitions equal to the hand-written model, the g-* streams run the translated definitions against the real functions)",
 ]
 ASSUMPTIONS = [
     "settings reach the pretty functions with the value type Cobalt Strike uses (bytes for TYPE_PTR settings, int for DNS_IDLE/BOF_ALLOCATOR/KILLDATE/PROTOCOL); "
@@ -367,6 +380,14 @@ def tails(rng, data):
 
 
 def gen(tier, rng, shard, nshards):
+    """every case of a stream whose function is translated from source is also run through the translated definition"""
+    for stream, line in gen0(tier, rng, shard, nshards):
+        yield stream, line
+        if stream in G_STREAMS:
+            yield "g-" + stream, "g" + line
+
+
+def gen0(tier, rng, shard, nshards):
     thorough = tier == "thorough"
     EXPECT.clear()
     k = 0
@@ -780,6 +801,12 @@ def _prop(fn):
 
 def impl(stream, line):
     w = line.split()
+    if stream.startswith("g-"):
+        # the same real functions; exceptions are reported by the runner as `exc <name>`
+        base = stream[2:]
+        if base in ("ex",):
+            return impl(base, line[1:])
+        return "ok " + impl(base, line[1:])
     if stream == "tr":
         return show_tr(B.parse_transform_binary(C.unhx(w[2]), build=w[1]))
     if stream == "rc":
@@ -846,6 +873,8 @@ def impl(stream, line):
 def nontrivial(stream, line, out):
     if out.startswith("exc ") or "unmodelled" in out:
         return False
+    if stream.startswith("g-"):
+        return out[3:] not in ("[]", "x", "s")
     if stream == "der":
         return len(line.split()) > 1
     body = out[3:] if out.startswith("ok ") else out
@@ -964,6 +993,8 @@ def ref_decode_recover(data):
 
 
 def oracle(stream, line, out):
+    if stream.startswith("g-"):
+        return None
     if (stream, line) not in EXPECT and stream in ("tr", "rc"):
         w = line.split()
         if stream == "tr":
